@@ -50,6 +50,7 @@ StdEnvIn(id) ==
       BindV(N_ss, IList(TList(TStr), <<VStr(<<97>>), VStr(<<98>>), VStr(<<97>>)>>)),
       BindV(N_m, IMap(TMap(TStr, TNum), <<IEnt(VStr(<<97>>), VNum(NInt(1))), IEnt(VStr(<<98>>), VNum(NInt(2)))>>)),
       BindV(N_mm, IMap(TMap(TNum, TStr), <<IEnt(VNum(NInt(1)), VStr(<<120>>)), IEnt(VNum(Half(5)), VStr(<<121>>))>>)),
+      BindV(N_me, IMap(TMap(TStr, TNum), <<>>)),
       BindV(N_ob, IObj(TOab, <<VNum(NInt(1)), VStr(<<120>>)>>)),
       BindV(N_oba, IObj(TOba, <<VStr(<<121>>), VNum(NInt(2))>>)),
       BindV(N_os, IList(TList(TOab), <<IObj(TOab, <<VNum(NInt(1)), VStr(<<120>>)>>), IObj(TOba, <<VStr(<<121>>), VNum(NInt(2))>>)>>)),
@@ -58,6 +59,9 @@ StdEnvIn(id) ==
       BindV(N_mx, VNothing(TNum)), BindV(N_mj, VJust(TNum, VNum(NInt(7)))), BindV(N_ms, VJust(TStr, VStr(<<113>>))),
       BindV(N_lo, IList(TList(TMaybe(TNum)), <<VJust(TNum, VNum(NInt(1))), VNothing(TNum)>>)),
       BindV(N_oo, IObj(TObj(<<Fld(N_a, TMaybe(TNum)), Fld(N_b, TStr)>>), <<VNothing(TNum), VStr(<<120>>)>>)),
+      \* two object types with the same field names whose field types agree by POSITION but not by name
+      BindV(N_op, IObj(TObj(<<Fld(N_b, TNum), Fld(N_a, TMaybe(TNum))>>), <<VNum(NInt(1)), VNothing(TNum)>>)),
+      BindV(N_oq, IObj(TObj(<<Fld(N_a, TNum), Fld(N_b, TMaybe(TNum))>>), <<VNum(NInt(2)), VNothing(TNum)>>)),
       BindV(N_fs, IList(TList(TIncTy), <<VFunV(TIncTy, "U_INC")>>))
     >>
     [] OTHER -> <<>>
